@@ -11,7 +11,9 @@ EXTENDS CertV2Props
 
 CONSTANTS MaxDepth,      \* X.509 elements under the root of trust: 1..MaxDepth
           MaxDefects,    \* simultaneous defects
-          Spares         \* subset of {"none", "fresh", "twin"}: off-path X.509 element
+          Spares,        \* subset of {"none", "fresh", "twin"}: off-path X.509 element
+          Embeds         \* subset of {"none", "genuine", "foreign"}: a self-signed root certificate shipped
+                         \* INSIDE the certificate as an element named like the root authority
 
 Target == "quote"
 XNames == <<"x1", "x2", "x3", "x4">>
@@ -42,17 +44,24 @@ ParentOfX(i) == IF i = 1 THEN RootName ELSE XNames[i - 1]
 \* d X.509 elements x1 (top) .. xd (certifies the attestation key), attestation key, quote, and
 \* optionally an element off the target's path: "fresh" = an unrelated certificate issued by the
 \* root; "twin" = a second certificate over the SAME key as xd, issued by xd's issuer.
-Base(d, sp) ==
+\* An embedded root ("genuine": over the root's own key; "foreign": over somebody else's key) is an
+\* element whose NAME is the reserved root name.  It is on nobody's path: the root of trust is the one
+\* GIVEN to the validator (`rot`), never something found inside the certificate.
+EmbKey(em) == IF em = "genuine" THEN RootName ELSE "foreign"
+Base(d, sp, em) ==
     LET names == {XNames[i] : i \in 1..d} \cup {"att", Target} \cup (IF sp = "none" THEN {} ELSE {"spare"})
+                 \cup (IF em = "none" THEN {} ELSE {RootName})
     IN [n \in names |->
           IF n = "att" THEN AttEl(XNames[d])
           ELSE IF n = Target THEN QuoteEl("att")
+          ELSE IF n = RootName THEN X509El(RootName, EmbKey(em), EmbKey(em))
           ELSE IF n = "spare" THEN
                  (IF sp = "fresh" THEN X509El(RootName, "spare", RootName)
                   ELSE X509El(ParentOfX(d), XNames[d], ParentOfX(d)))
           ELSE LET i == CHOOSE j \in 1..d : XNames[j] = n IN X509El(ParentOfX(i), n, ParentOfX(i))]
 
-Init == /\ \E d \in 1..MaxDepth, sp \in Spares : cert = Base(d, sp)
+Init == /\ \E d \in 1..MaxDepth, sp \in Spares, em \in Embeds :
+              (sp = "none" \/ em = "none") /\ cert = Base(d, sp, em)
         /\ rot = GoodRot /\ ndef = 0
         /\ phase = "env" /\ cur = None /\ visited = {} /\ chain = <<>> /\ certifier = None /\ steps = 0
         /\ outcome = None /\ failing = None /\ reported = None
@@ -66,7 +75,7 @@ SetTime(n, v)  == /\ cert[n].kind = "x509" /\ cert[n].time = "Valid"
 BadSig(n)      == /\ cert[n].sigBy # "other"
                   /\ cert' = [cert EXCEPT ![n].sigBy = "other"] /\ UNCHANGED rot
 \* the curve belongs to the key: every certificate over that key shows it
-OtherCurve(n)  == /\ cert[n].kind = "x509" /\ cert[n].curve = "P256"
+OtherCurve(n)  == /\ cert[n].kind = "x509" /\ cert[n].curve = "P256" /\ n # RootName
                   /\ cert' = [m \in DOMAIN cert |->
                                 IF cert[m].kind = "x509" /\ cert[m].key = cert[n].key
                                 THEN [cert[m] EXCEPT !.curve = "Other"] ELSE cert[m]]
@@ -79,17 +88,23 @@ Reparent(n, m) == /\ m # cert[n].by
                   /\ cert' = [cert EXCEPT ![n].by = m] /\ UNCHANGED rot
 \* another root certificate: over a key of nobody ("wrong"), or the top element's own certificate
 \* handed over as the root of trust (a key of the chain, but not the root's)
+\* ... or the foreign root that is also shipped inside the certificate
+HasForeign     == RootName \in DOMAIN cert /\ cert[RootName].key = "foreign"
 WrongRoot      == /\ rot.key = RootName
                   /\ \/ rot' = [rot EXCEPT !.key = "wrong"]
                      \/ rot' = [rot EXCEPT !.key = cert[XNames[1]].key, !.curve = cert[XNames[1]].curve]
+                     \/ HasForeign /\ rot' = [rot EXCEPT !.key = "foreign"]
                   /\ UNCHANGED cert
+\* the chain hangs from the foreign root: its top element is signed by the foreign root's key
+ForgeTop       == /\ HasForeign /\ cert[XNames[1]].sigBy = RootName
+                  /\ cert' = [cert EXCEPT ![XNames[1]].sigBy = "foreign"] /\ UNCHANGED rot
 
 Mutate == /\ phase = "env" /\ ndef < MaxDefects
           /\ \/ \E n \in DOMAIN cert :
                   \/ \E v \in {"Expired", "NotYet"} : SetTime(n, v)
                   \/ BadSig(n) \/ OtherCurve(n) \/ Unbind(n) \/ BadKey(n)
-                  \/ \E m \in DOMAIN cert \cup {RootName, Ghost} : n # "spare" /\ Reparent(n, m)
-             \/ WrongRoot
+                  \/ \E m \in DOMAIN cert \cup {RootName, Ghost} : n \notin {"spare", RootName} /\ Reparent(n, m)
+             \/ WrongRoot \/ ForgeTop
           /\ ndef' = ndef + 1
           /\ UNCHANGED <<sysv, obsv>>
 
